@@ -24,10 +24,13 @@ ASSUMPTIONS = ['pandas: ffill/bfill(limit), fillna(value, limit), boolean-mask s
                'nona(value != nan) are not modelled; limit=0 (outside the quantifier) is not generated',
                'input immutability: proved on the object store PygModel/FillAlias.lean under the assumption, observed by snapshot on every line, that pandas ffill / fillna / bfill / boolean selection / .loc / concat return new objects',
                'input immutability seen from the RESULT (review t4 2.1): on every line and in the laws every cell of the result is overwritten and the argument compared with its snapshot '
-               '(a writable numpy view of the argument is a finding - C12-E2, repaired); `res is x` for an empty method list and read-only results are skipped. The store model covers `_df_fillna` only, not `_nona`',
-               'not modelled, not generated: 2-d inputs WITHOUT columns ((n, 0) arrays, `pd.DataFrame(index=idx)`) - probed: ffill_na / ffill_0 raise "ValueError: No objects to concatenate" '
-               '(pd.concat of zero columns), every other method answers; the wire cannot carry the row count of a frame without columns; `edge` values other than None / 1 / -1 '
-               '(outside the docstring; code and model: None / err Other, for arrays as for pandas objects since 002fba9), bool methods (is_num(True))']
+               '(a writable numpy view of the argument is a finding - C12-E2, repaired); `res is x` for an empty method list and read-only results are skipped. The store model covers `_df_fillna` and, since round k4, `_nona` (FillAlias.nonaPd / nonaArrS)',
+               '2-d inputs WITHOUT columns ((n, 0) arrays, `pd.DataFrame(index=idx)`) are generated since round k4 (ops fillna-df0 / fillna-a0 / nona-df0: the reply carries the labels / '
+               'the row count, the result must have no column; ffill_na / ffill_0 raised "ValueError: No objects to concatenate" there - defect C12-E4, repaired 0bb3a3a). Not modelled, not generated: '
+               '`edge` values other than None / 1 / -1 (outside the docstring; code and model: None / err Other, for arrays as for pandas objects since 002fba9), bool methods (is_num(True)), '
+               'float16 and 0-d arrays (pandas raises "No matching signature" / AttributeError)',
+               'the `_nona` store (cells record whose buffer they share) assumes, and the overwrite check samples on every nona line: boolean-mask selection and np.isnan own their data, '
+               'a pandas .loc[a:b] result never writes through (copy-on-write), a numpy basic slice is a view, .copy() is not']
 S = 4
 METHODS = ['ffill', 'bfill', 'backfill', 'ffill_na', 'ffill_0', 'fnna', 'nona', 'c:0', 'c:6', 'c:-3', 'c:4']
 VALS = [1.0, 2.0, 0.0, -1.5, 0.25, 3.0, 7.75, -4.0]
@@ -248,6 +251,21 @@ def generate(rng, tier):
         lim = rand_limit(rng, allow0=False)
         tag = 'fillna-%s/%s/%s+%s-index' % (kind, '+'.join(m.split(':')[0] for m in ms), 'lim' if lim != 'N' else 'nolim', how)
         yield dict(tag=tag, lines=['(fill fillna-%s %s %s %s)' % (kind, enc_obj(kind, x), enc_methods(ms, 'M'), lim)])
+    # 2-d inputs WITHOUT columns (review t4 2.2): n rows, no column - nothing to fill, every row "entirely NaN"
+    for _ in range(40 if tier == 'quick' else 600):
+        n = rng.choice([0, 1, 2, 3, 5])
+        kind = rng.choice(NOCOLS)
+        obj = ('(L' + ''.join(' (T %s F:nan)' % W.enc_t(t) for t in index(rng, n)) + ')') if kind == 'df0' else 'I:%d' % n
+        if kind == 'df0' and rng.random() < 0.2:
+            edge = rng.choice(['N', 'I:1', 'I:-1'])
+            yield dict(tag='nona-df0/%s' % edge, lines=['(fill nona-df0 %s %s)' % (obj, edge)])
+            continue
+        ms, sp = rand_methods(rng)
+        if rng.random() < 0.4:
+            ms = [rng.choice(['ffill_na', 'ffill_0'])] + ms[1:]
+        lim = rand_limit(rng, allow0=False)
+        yield dict(tag='fillna-%s/%s' % (kind, '+'.join(m.split(':')[0] for m in ms)),
+                   lines=['(fill fillna-%s %s %s %s)' % (kind, obj, enc_methods(ms, sp), lim)])
     if rng.random() < 2:   # method = None / [] returns the input
         x, _ = make_obj(rng, 's', 4)
         yield dict(tag='fillna-s/none', lines=['(fill fillna-s %s N N)' % enc_obj('s', x), '(fill fillna-s %s (M) I:1)' % enc_obj('s', x)])
@@ -312,6 +330,8 @@ def run_line(state, sx):
     import pyg_base
     op, args = sx[1], sx[2:]
     fn, _, kind = op.partition('-')
+    if kind in NOCOLS:
+        return run_nocols(fn, kind, args)
     x = dec_obj(kind, args[0])
     kind0, kind = kind, base(kind)
     before = W.snapshot(x)
@@ -337,6 +357,35 @@ def run_line(state, sx):
     if result_reaches_input(x, res, before):
         return 'violation ' + ALIAS_MSG
     return reply
+
+
+NOCOLS = ('df0', 'a0')      # 2-d inputs WITHOUT columns: `pd.DataFrame(index=labels)` / `np.zeros((n, 0))` ("2-d frames of any length ... empty")
+
+
+def run_nocols(fn, kind, args):
+    """(fill fillna-df0 (L (T t F:nan)*) ms lim) / (fill fillna-a0 I:n ms lim) / (fill nona-df0 .. edge): a frame / array with n rows
+    and no column; the reply carries the labels (df0) / the row count (a0) of the result, which must have no column either"""
+    import pyg_base
+    if kind == 'df0':
+        x = pd.DataFrame(index=pd.DatetimeIndex([W.dec_t(item[1]) for item in args[0][1:]]))
+    else:
+        x = np.zeros((int(args[0][2:]), 0))
+    shape, labels = x.shape, (list(x.index) if kind == 'df0' else None)
+    if fn == 'fillna':
+        res = pyg_base.df_fillna(x, dec_methods(args[1]), limit=dec_limit(args[2]))
+    elif fn == 'nona':
+        res = pyg_base.nona(x, edge=dec_limit(args[1]))
+    else:
+        return 'bad-op'
+    if x.shape != shape or (kind == 'df0' and list(x.index) != labels):
+        return 'violation input-modified'
+    if not isinstance(res, pd.DataFrame if kind == 'df0' else np.ndarray):
+        return 'violation result-type %s' % type(res).__name__
+    if len(res.shape) != 2 or res.shape[1] != 0:
+        return 'violation shape %s' % (res.shape,)
+    if kind == 'df0':
+        return 'ok (L' + ''.join(' (T %s F:nan)' % W.enc_t(t) for t in res.index) + ')'
+    return 'ok I:%d' % res.shape[0]
 
 
 ALIAS_MSG = 'result-aliases-input: writing into the result changes the argument'
